@@ -236,6 +236,9 @@ Proof.
 Qed.
 
 (** the end of the session of client [c] *)
+(* conversions below never need to look inside on_disconnected: keep the kernel and the unifier from unfolding it *)
+Strategy opaque [on_disconnected].
+
 Definition disc (st : sv) (c : Z) : sv := on_disconnected (semit st (SDrop c)) c.
 
 Lemma disc_spec st c : let s' := disc st c in
@@ -517,3 +520,6 @@ Example s_S1_demo :
   map (fun e => match e with SWr c r => r | _ => 0 end) (filter (fun e => match e with SWr _ _ => true | _ => false end) (rev (str s))) = [11; 21; 12; 22; 13; 14] /\
   outst 1 (str s) = Some 14 /\ outst 2 (str s) = Some 0.
 Proof. cbv zeta. split; [repeat constructor; discriminate|]. vm_compute. repeat split; reflexivity. Qed.
+
+(* back to the default for the files that unfold it *)
+Strategy 0 [on_disconnected].
